@@ -162,6 +162,30 @@ func (w *W) BuildHere(files []File, flags ...string) BuildResult {
 	return br
 }
 
+// BuildPatterns writes the files into a fresh directory and passes the given -i patterns (relative to it).
+func (w *W) BuildPatterns(files []File, patterns []string, flags ...string) BuildResult {
+	w.FreshDir()
+	args := []string{}
+	for _, f := range files {
+		if dir := filepath.Dir(f.Name); dir != "." {
+			os.MkdirAll(dir, 0o755)
+		}
+		os.WriteFile(f.Name, []byte(f.Content), 0o644)
+	}
+	for _, p := range patterns {
+		args = append(args, "-i", p)
+	}
+	args = append(args, "-o", "out.go")
+	args = append(args, flags...)
+	r := Tool(DefaultVersion, DefaultBuildInfo, args...)
+	br := BuildResult{Run: r}
+	if b, err := os.ReadFile("out.go"); err == nil {
+		br.OutExists = true
+		br.Output = string(b)
+	}
+	return br
+}
+
 func FilesMap(files []File) map[string]string {
 	m := map[string]string{}
 	for _, f := range files {
